@@ -260,7 +260,7 @@ func WithWatchdog(wd *gwatchdog.Watchdog) Opt {
 // emits metrics for its subsystems.
 func WithMetricsChannel(ch chan<- Metrics) Opt {
 	return func(e *Engine, _ *tmstate.StateMachineConfig) error {
-		if len(ch) != 0 {
+		if cap(ch) != 0 {
 			return errors.New("WithMetricsChannel: ch must be unbuffered")
 		}
 		e.metricsCh = ch
